@@ -4,6 +4,7 @@ use crate::report::Tier;
 
 pub mod c01;
 pub mod c02;
+pub mod c05;
 pub mod c11;
 pub mod c12;
 pub mod c15;
@@ -19,6 +20,7 @@ fn table() -> Vec<(&'static str, CheckFn)> {
     vec![
         ("C01", c01::run),
         ("C02", c02::run),
+        ("C05", c05::run),
         ("C11", c11::run_c11),
         ("C12", c12::run),
         ("C14", c11::run_c14),
